@@ -154,8 +154,12 @@ def real_out(s1, s2, s_out, shift):
 
 
 contract(
-    "ethosu.vela.scaling:elementwise_mul_scale", props=["C09"], variants=_triple(["input_scale", "input2_scale", "output_scale"]),
-    requires=["math.isfinite(input_scale) and math.isfinite(input2_scale) and math.isfinite(output_scale)",
+    "ethosu.vela.scaling:elementwise_mul_scale", props=["C09"],
+    variants=dict(_triple(["input_scale", "input2_scale", "output_scale"]),
+                  # LeakyReLU table generation: (double, 1, double) and (double, alpha: python float, double)
+                  **{"np.float64,1,np.float64": dict(input_scale=NpF64, input2_scale=TConst(1), output_scale=NpF64),
+                     "np.float64,float,np.float64": dict(input_scale=NpF64, input2_scale=F64, output_scale=NpF64)}),
+    requires=["math.isfinite(input_scale) and math.isfinite(np.double(input2_scale)) and math.isfinite(output_scale)",
               "input_scale > 0 and input2_scale > 0 and output_scale > 0",
               # the real multiplier is a normal positive double (no overflow / underflow to zero)
               "math.isfinite(np.double(input_scale) * np.double(input2_scale) / np.double(output_scale))",
